@@ -4,6 +4,7 @@ import XlModel.CondFmt
 import XlModel.DvDelete
 import XlModel.DvRecord
 import XlModel.CfRule
+import XlModel.XmlAttr
 import XlModel.Drv.Util
 namespace XlModel.Drv.C18
 open XlModel XlModel.Settings XlModel.Drv
@@ -101,6 +102,63 @@ def runDvDel (rules : List (List Char)) (del : List Char) : String :=
       let out := DvDelete.deleteRules rs d
       if out.isEmpty then "ok -" else "ok " ++ ";".intercalate (out.map showCells)
 
+/-! persistence: the attributes `xml.Marshal` writes for the protection / data-validation records -/
+
+def showAttr (p : String × Settings.Val) : String :=
+  p.1 ++ "=" ++ (match p.2 with
+    | .b v => if v then "true" else "false"
+    | .i v => toString v
+    | .f v => natHex v
+    | .s v => if (p.1.splitOn "ashValue").length > 1 || (p.1.splitOn "altValue").length > 1 then "*" else hexS v)
+
+def showAttrs (l : List (String × Settings.Val)) : String :=
+  if l.isEmpty then "-" else " ".intercalate (l.map showAttr)
+
+def protFieldVal (r : Protection.PRec) (go : String) (k : Settings.Kind) : Settings.FVal :=
+  if go = "AlgorithmName" || go = "WorkbookAlgorithmName" then .plain (.s r.alg)
+  else if go = "Password" then .plain (.s r.password)
+  else if go = "HashValue" || go = "WorkbookHashValue" then .plain (.s r.hash)
+  else if go = "SaltValue" || go = "WorkbookSaltValue" then .plain (.s r.salt)
+  else if go = "SpinCount" || go = "WorkbookSpinCount" then .plain (.i r.spin)
+  else match k with
+    | .bool => .plain (.b (match r.flags.lookup go with | some b => b | none => false))
+    | .int => .plain (.i 0)
+    | _ => .plain (.s [])
+
+def protXml (kind : Protection.PKind) (st : Option Protection.PRec) : String :=
+  match st with
+  | none => "none"
+  | some r =>
+    let tbl := match kind with
+      | .sheet => Facts.C18.tags_xlsxSheetProtection
+      | .workbook => Facts.C18.tags_xlsxWorkbookProtection
+    let tags := XmlAttr.attrTags tbl
+    showAttrs (XmlAttr.marshal (tags.map fun t => (t, protFieldVal r t.go t.kind)))
+
+def optS (o : Option (List Char)) : Settings.FVal := .ptr .str (o.map .s)
+
+def dvFieldVal (x : DvRecord.XDV) (go : String) : Settings.FVal :=
+  if go = "AllowBlank" then .plain (.b x.allowBlank)
+  else if go = "Error" then optS x.error
+  else if go = "ErrorStyle" then optS x.errorStyle
+  else if go = "ErrorTitle" then optS x.errorTitle
+  else if go = "Operator" then .plain (.s x.operator)
+  else if go = "Prompt" then optS x.prompt
+  else if go = "PromptTitle" then optS x.promptTitle
+  else if go = "ShowDropDown" then .plain (.b x.showDropDown)
+  else if go = "ShowErrorMessage" then .plain (.b x.showErrorMessage)
+  else if go = "ShowInputMessage" then .plain (.b x.showInputMessage)
+  else if go = "Sqref" then .plain (.s x.sqref)
+  else if go = "Type" then .plain (.s x.type)
+  else .plain (.s [])
+
+def dvXml (x : DvRecord.XDV) : String :=
+  let tags := XmlAttr.attrTags Facts.C18.tags_xlsxDataValidation
+  let el (o : Option (List Char)) : String := match o with
+    | some c => hexS (Settings.unescape c)
+    | none => "~"
+  showAttrs (XmlAttr.marshal (tags.map fun t => (t, dvFieldVal x t.go))) ++ " f1=" ++ el x.formula1 ++ " f2=" ++ el x.formula2
+
 /-! `cfr <24 fields>`: one ConditionalFormatOptions set on a new sheet and read back -/
 
 def parseB (s : String) : Bool := s = "1"
@@ -147,7 +205,7 @@ def showDV (d : DvRecord.DV) : String :=
   " ShowDropDown:" ++ showB d.showDropDown ++ " ShowErrorMessage:" ++ showB d.showErrorMessage ++
   " ShowInputMessage:" ++ showB d.showInputMessage ++ " Sqref:s=" ++ hexS d.sqref ++ " Type:s=" ++ hexS d.type
 
-def runDvb (w : List String) : String :=
+def runDvb (xmlOnly : Bool) (w : List String) : String :=
   match w with
   | [ab, dd, form, t, o, a, b, err, et, em, inp, it, im, sq] =>
     match t.toNat?, o.toNat?, unhexS et, unhexS em, unhexS it, unhexS im, unhexS sq with
@@ -177,7 +235,8 @@ def runDvb (w : List String) : String :=
           | some st => DvRecord.setError d1 st et em
           | none => d1
         let d3 := if inp = "1" then DvRecord.setInput d2 it im else d2
-        "ok " ++ showDV (DvRecord.getDV (DvRecord.addDV d3))
+        if xmlOnly then "ok " ++ dvXml (DvRecord.addDV d3)
+        else "ok " ++ showDV (DvRecord.getDV (DvRecord.addDV d3))
     | _, _, _, _, _, _, _ => "bad-op"
   | _ => "bad-op"
 
@@ -391,7 +450,9 @@ def step (st : St) (w : List String) : St × String :=
     match a.toNat?, b.toNat? with
     | some a, some b => (st, "ok " ++ toString (getFirstPage (setFirstPage (setFirstPage none a) b)))
     | _, _ => (st, "bad-op")
-  | "dvb" :: rest => (st, runDvb rest)
+  | "dvb" :: rest => (st, runDvb false rest)
+  | "dvx" :: rest => (st, runDvb true rest)
+  | ["phxml"] => (st, protXml st.kind st.prot)
   | "cfr" :: rest => (st, runCfr rest)
   | ["dvdel", rs, d] =>
     match (rs.splitOn ",").mapM unhexS, unhexS d with
